@@ -33,6 +33,7 @@ type Val struct {
 	Et string         `json:"et,omitempty"` // Go element type of typed lists (C05)
 	Gv *Val           `json:"gv,omitempty"` // raw, leak, rawof
 	V  *Val           `json:"v,omitempty"`  // may
+	U  *Val           `json:"u,omitempty"`  // named: the value of the underlying basic type
 }
 
 // MarshalJSON writes exactly the fields the tag uses (TLC compares records structurally).
@@ -68,6 +69,8 @@ func (v Val) MarshalJSON() ([]byte, error) {
 		m["gv"] = v.Gv
 	case "may":
 		m["v"] = v.V
+	case "named":
+		m["u"] = v.U
 	}
 	return json.Marshal(m)
 }
@@ -86,11 +89,12 @@ func (v *Val) UnmarshalJSON(b []byte) error {
 		Et string          `json:"et"`
 		Gv *Val            `json:"gv"`
 		V  *Val            `json:"v"`
+		U  *Val            `json:"u"`
 	}
 	if err := json.Unmarshal(b, &raw); err != nil {
 		return err
 	}
-	*v = Val{K: raw.K, P: raw.P, G: raw.G, S: raw.S, B: raw.B, Xs: raw.Xs, N: raw.N, Lk: raw.Lk, Et: raw.Et, Gv: raw.Gv, V: raw.V}
+	*v = Val{K: raw.K, P: raw.P, G: raw.G, S: raw.S, B: raw.B, Xs: raw.Xs, N: raw.N, Lk: raw.Lk, Et: raw.Et, Gv: raw.Gv, V: raw.V, U: raw.U}
 	if v.K == "obj" {
 		v.F = map[string]Val{}
 		if len(raw.F) > 0 && raw.F[0] == '{' { // TLC prints the empty function as []
